@@ -21,12 +21,13 @@ func Child(args []string) int { return childMain(args) }
 // Run is the monitor.
 func Run(r *ev.Run) {
 	r.Rule = "cases = (a) controlled executions: several v2 keystore handles over ONE in-memory backend, every backend call (Lock/RLock/Get/Put/Rename/Unlock...) of a thread is a scheduling point and a scheduler that models the store lock picks the next call — seeded random programs and schedules (quick: 300 × (2 writers + 1 reader) × 3-4 operations; thorough: + 20000 × (3 writers + 1 reader)) and, thorough only, exhaustive depth-first enumeration of all interleavings of five fixed 2-writers × 2-operations (+1 reader) scenarios; " +
-		"(b) free-running -race stress: 8-32 goroutines with separate handles on one in-memory backend and on one directory backend (flock), 3 OS processes × 2 goroutines on one directory, one handle shared by 8-32 reader goroutines while another handle rotates keys; (c) v1: one filesystem keystore handle shared by 8-32 goroutines calling 12 read-only getters over 4-6 clients with cache sizes {1,2,unbounded,off}. " +
+		"(a') controlled executions over the REAL lock of the directory back end (flock + in-process mutex, nothing modelled): 1-2 reader and 1-2 ring-level writer goroutines SHARING one keystore handle plus a writer on a second handle of the same directory, every back-end call a scheduling point, a granted lock call that stays inside the call is a waiting thread — seeded random schedules (quick 30, thorough 200), three directed schedules per scenario (reader inside while the writer of the same handle performs the first 1/2/3 calls of its write cycle, then the other handle's writer), thorough: depth-first enumeration (capped) of one scenario; " +
+		"(b) free-running -race stress: 6 readers + 2 writers sharing one handle with 2 writers sharing a second handle (in-memory and directory),  8-32 goroutines with separate handles on one in-memory backend and on one directory backend (flock), 3 OS processes × 2 goroutines on one directory, one handle shared by 8-32 reader goroutines while another handle rotates keys; (c) v1: one filesystem keystore handle shared by 8-32 goroutines calling 12 read-only getters over 4-6 clients with cache sizes {1,2,unbounded,off}. " +
 		"Every v2 history is recorded at the API boundary with one logical clock and judged per key ring by porcupine against the sequential key-ring model plus the final-state oracle; every v1 result is compared with the value read sequentially beforehand. " +
 		"evaluations = controlled executions + stress actions + v1 getter calls. distinct_nontrivial = distinct interleaving signatures (sequence of (thread, backend op)) of controlled executions in which the threads really interleaved (at least as many context switches as threads), plus one class per clean stress configuration and per (v1 getter, cache size) that returned a verified-correct key"
 	r.Assumptions = []string{
 		"crypto library replaced by the pure-Go gothemis stand-in (Secure Cell Seal / EC keys contract)",
-		"controlled schedules cover the in-memory backend only; the directory backend (flock + in-process mutex) and several processes are covered by free-running stress, whose schedules the OS chooses; Redis backends not covered",
+		"fully controlled (modelled-lock) schedules cover the in-memory backend only; the directory backend is driven under schedules controlled at back-end call granularity as far as its real lock is deterministic (a thread inside a granted lock call for 6 ms counts as waiting; wall clock is used for that only, never by an oracle) and by free-running stress; several processes by free-running stress; Redis backends not covered",
 		"interleavings are explored at backend-call granularity with one thread running at a time (sequentially consistent executions); weak-memory effects are left to the race detector in the free-running workloads",
 		"imports are driven with one-ring containers; an import is modelled as composite (make the ring exist, then replace its content), an overwrite-policy import may replace anything, an abort-if-exists import must find the ring still pristine when it writes",
 		"v1 reference values are read through a cache-less handle before the concurrent phase; no writer runs during the v1 phase (the property's v1 clause is about read-only connection traffic)",
